@@ -214,6 +214,16 @@ func (pc *pCtx) delegateObls(name string, d *delegInfo) {
 		shapeOK = false
 		shapeNote = fmt.Sprintf("argument %d of %s is computed (%s), not forwarded", ai+1, calleeName, a.String())
 	}
+	// a variant delegates to the canonical form of its own operator family (DoWhileWithContext -> DoWhileIWithContext, not WhileIWithContext)
+	if pkgFns := pc.kc.w.allFuncs(fn.Pkg.Pkg.Path()); pkgFns != nil {
+		stem := delegStem(fn.Name())
+		// only the four-variant families (X, XI, XWithContext, XIWithContext) have a canonical form by name
+		if _, c1 := pkgFns[stem+"IWithContext"]; c1 && fn.Name() != stem+"IWithContext" {
+			ok := delegStem(calleeName) == stem
+			pc.add(props, "D1/"+name+"/delegates-to-its-own-family", "a plain / indexed / context-aware variant delegates to the canonical form of the same operator", ok,
+				fmt.Sprintf("%s delegates to %s", fn.Name(), calleeName), pos)
+		}
+	}
 	pc.add(props, "D1/"+name+"/arguments-are-forwarded", "a delegating variant passes to "+calleeName+" only its own parameters, adapter lambdas around them and constants", shapeOK, shapeNote, pos)
 	// every parameter reaches the canonical form
 	var missing []string
@@ -236,6 +246,19 @@ func (pc *pCtx) delegateObls(name string, d *delegInfo) {
 		}
 	}
 	pc.add(props, "D1/"+name+"/same-typed-parameters-keep-their-order", "parameters of the same type are forwarded to "+calleeName+" in the order they were received", orderOK, note, pos)
+}
+
+// delegStem strips the variant suffixes of an operator name: MapIWithContext, MapWithContext, MapI -> Map.
+func delegStem(n string) string {
+	for _, suf := range []string{"IWithContext", "WithContext"} {
+		if strings.HasSuffix(n, suf) && len(n) > len(suf) {
+			return strings.TrimSuffix(n, suf)
+		}
+	}
+	if strings.HasSuffix(n, "I") && len(n) > 1 {
+		return strings.TrimSuffix(n, "I")
+	}
+	return n
 }
 
 func delegParamIndex(fn *ssa.Function, p *ssa.Parameter) int {
